@@ -107,7 +107,16 @@ def check(case, res):
       feats.add("ruby-container-with-timed-base-and-annotation-in-another-region")
   res.label(*feats)
   sig = [None]
-  for t in times:
+  # snapshots are random access: the probe times are visited in increasing order, in decreasing order or from both ends inwards (the
+  # accelerated path reuses one SignificantTimes object for all of them)
+  visit = list(times)
+  k = len(visit) + sum(len(n["kids"]) for n in gen_model.all_nodes(spec))
+  if k % 3 == 1:
+    visit.reverse()
+  elif k % 3 == 2:
+    visit = [visit[-1 - i // 2] if i % 2 == 0 else visit[i // 2] for i in range(len(visit))]
+  res.label("probe-order:%s" % ("increasing", "decreasing", "ends-inwards")[k % 3])
+  for t in visit:
     res.evals += 1
     res.labels["probe:boundary" if t in boundary else "probe:between"] += 1
     snaps = ref.snapshot(t)
